@@ -167,6 +167,8 @@ Library& Library::operator=(const Library& other) &
 static std::vector<std::string> getnames(const char *names)
 {
     std::vector<std::string> ret;
+    if (!names)
+        return ret;
     while (const char *p = std::strchr(names,',')) {
         ret.emplace_back(names, p-names);
         names = p + 1;
@@ -240,7 +242,12 @@ Library::Error Library::load(const char exename[], const char path[], bool debug
 
     if (error == tinyxml2::XML_SUCCESS) {
         if (mData->mFiles.find(absolute_path) == mData->mFiles.end()) {
-            Error err = load(doc);
+            Error err;
+            try {
+                err = load(doc);
+            } catch (const std::runtime_error& e) { // strToInt on a malformed number
+                err = Error(ErrorCode::BAD_ATTRIBUTE_VALUE, e.what());
+            }
             if (err.errorcode == ErrorCode::OK)
                 mData->mFiles.insert(std::move(absolute_path));
             return err;
@@ -508,7 +515,10 @@ Library::Error Library::load(const tinyxml2::XMLDocument &doc)
                 if (!argString)
                     return Error(ErrorCode::MISSING_ATTRIBUTE, "arg");
 
-                mData->mReflection[reflectionnode->GetText()] = strToInt<int>(argString);
+                const char * const reflectionName = reflectionnode->GetText();
+                if (!reflectionName)
+                    return Error(ErrorCode::BAD_ATTRIBUTE_VALUE, "call");
+                mData->mReflection[reflectionName] = strToInt<int>(argString);
             }
         }
 
@@ -548,6 +558,8 @@ Library::Error Library::load(const tinyxml2::XMLDocument &doc)
 
                         for (const tinyxml2::XMLElement *e = exporter->FirstChildElement(); e; e = e->NextSiblingElement()) {
                             const std::string ename = e->Name();
+                            if (!e->GetText())
+                                return Error(ErrorCode::BAD_ATTRIBUTE_VALUE, ename);
                             if (ename == "prefix")
                                 mData->mExporters[prefix].addPrefix(e->GetText());
                             else if (ename == "suffix")
@@ -560,8 +572,11 @@ Library::Error Library::load(const tinyxml2::XMLDocument &doc)
 
                 else if (markupnodename == "imported") {
                     for (const tinyxml2::XMLElement *librarynode = markupnode->FirstChildElement(); librarynode; librarynode = librarynode->NextSiblingElement()) {
-                        if (strcmp(librarynode->Name(), "importer") == 0)
+                        if (strcmp(librarynode->Name(), "importer") == 0) {
+                            if (!librarynode->GetText())
+                                return Error(ErrorCode::BAD_ATTRIBUTE_VALUE, "importer");
                             mData->mImporters[extension].insert(librarynode->GetText());
+                        }
                         else
                             unknown_elements.insert(librarynode->Name());
                     }
@@ -869,6 +884,8 @@ Library::Error Library::loadFunction(const tinyxml2::XMLElement * const node, co
         const std::string functionnodename = functionnode->Name();
         if (functionnodename == "noreturn") {
             const char * const text = functionnode->GetText();
+            if (!text)
+                return Error(ErrorCode::BAD_ATTRIBUTE_VALUE, "noreturn");
             if (strcmp(text, "false") == 0)
                 mData->mNoReturn[name] = LibraryData::FalseTrueMaybe::False;
             else if (strcmp(text, "maybe") == 0)
